@@ -149,6 +149,11 @@ func (n *TNode) Build() any {
 		case 4:
 			a := SStack(s)
 			return &a
+		case 5:
+			return XStack(s)
+		case 6:
+			a := XStack(s)
+			return &a
 		}
 		return s
 	case "cond":
@@ -163,6 +168,11 @@ func (n *TNode) Build() any {
 			return SCond(c)
 		case 4:
 			a := SCond(c)
+			return &a
+		case 5:
+			return XCond(c)
+		case 6:
+			a := XCond(c)
 			return &a
 		}
 		return c
